@@ -140,14 +140,15 @@ type blockOps struct {
 }
 
 type lockHist struct {
-	overBound *common.Address // a token whose weight was just made huge: the next block locks 2^96 of it (over the power bound)
-	split     *splitLock      // directed scenario in progress: power granted in pieces, taken back in one go
-	memberVal bool            // a validator with a relayer voter's key has been created
-	c         *vc.Ctx
-	cfg       lockCfg
-	r         *rand.Rand
-	ch        *world.Chain
-	vals      []*hVal
+	hugeUnjail map[string]bool
+	overBound  *common.Address // a token whose weight was just made huge: the next block locks 2^96 of it (over the power bound)
+	split      *splitLock      // directed scenario in progress: power granted in pieces, taken back in one go
+	memberVal  bool            // a validator with a relayer voter's key has been created
+	c          *vc.Ctx
+	cfg        lockCfg
+	r          *rand.Rand
+	ch         *world.Chain
+	vals       []*hVal
 	// ground truth
 	unlocks   map[uint64]*unlockRec
 	claims    map[uint64]*claimRec
@@ -439,6 +440,30 @@ func (h *lockHist) gen() *blockOps {
 			o.locks = append(o.locks, l2, l1)
 			o.Desc = append(o.Desc, fmt.Sprintf("lock v%d btc 1e18, lock v%d %s 2^96 (over the power bound)", vb, va, denomOf(*ob)))
 			h.c.Count("lock_batches_over_the_power_bound", 1)
+		}
+	}
+	if h.cfg.HugeWeights && w.Lock > 0 && h.post != nil {
+		// directed: a validator jailed for downtime whose jail time is over gets a lock of 2^122 (far over the power bound):
+		// the way back into the set must be bounded like every other way of gaining power
+		for vi, v := range h.vals {
+			pv := h.post.Validator(v.Key.Cons)
+			if pv == nil || pv.Status != lockingtypes.Downgrade || !h.ch.Now.After(pv.JailedUntil) {
+				continue
+			}
+			key := fmt.Sprintf("%d/%d", vi, pv.JailedUntil.UnixNano())
+			if h.hugeUnjail == nil {
+				h.hugeUnjail = map[string]bool{}
+			}
+			if h.hugeUnjail[key] {
+				continue
+			}
+			h.hugeUnjail[key] = true
+			lr := &goattypes.LockRequest{Validator: v.Addr, Token: tokBTC, Amount: new(big.Int).Lsh(big.NewInt(1), 122)}
+			o.Reqs.Locking.Locks = append(o.Reqs.Locking.Locks, lr)
+			o.locks = append(o.locks, lr)
+			o.Desc = append(o.Desc, fmt.Sprintf("lock v%d btc 2^122 (jail over; over the power bound)", vi))
+			h.c.Count("huge_locks_for_validators_whose_jail_is_over", 1)
+			break
 		}
 	}
 	if roll(w.Lock) {
